@@ -583,6 +583,31 @@ static size_t get_value_size(carquet_physical_type_t type, int32_t type_length) 
 }
 
 /* ============================================================================
+ * Helper: Sizes and counts of a page header come from the file
+ * ============================================================================
+ */
+
+static carquet_status_t check_page_header_sizes(
+    const parquet_page_header_t* page_header,
+    carquet_error_t* error) {
+
+    if (page_header->compressed_page_size < 0 || page_header->uncompressed_page_size < 0) {
+        CARQUET_SET_ERROR(error, CARQUET_ERROR_INVALID_PAGE,
+            "Negative page size in page header (%d compressed, %d uncompressed)",
+            (int)page_header->compressed_page_size, (int)page_header->uncompressed_page_size);
+        return CARQUET_ERROR_INVALID_PAGE;
+    }
+    if ((page_header->type == CARQUET_PAGE_DATA || page_header->type == CARQUET_PAGE_DATA_V2) &&
+        page_header->data_page_header.num_values < 0) {
+        CARQUET_SET_ERROR(error, CARQUET_ERROR_INVALID_PAGE,
+            "Negative value count in page header (%d)",
+            (int)page_header->data_page_header.num_values);
+        return CARQUET_ERROR_INVALID_PAGE;
+    }
+    return CARQUET_OK;
+}
+
+/* ============================================================================
  * Helper: Locate a page inside the mapped file / buffer
  * ============================================================================
  *
@@ -661,6 +686,11 @@ static carquet_status_t load_dictionary_page_mmap(
     if (page_header.type != CARQUET_PAGE_DICTIONARY) {
         CARQUET_SET_ERROR(error, CARQUET_ERROR_INVALID_PAGE, "Expected dictionary page");
         return CARQUET_ERROR_INVALID_PAGE;
+    }
+
+    status = check_page_header_sizes(&page_header, error);
+    if (status != CARQUET_OK) {
+        return status;
     }
 
     status = mmap_page_payload_check(file_reader, dict_offset, header_size,
@@ -770,6 +800,11 @@ static carquet_status_t load_dictionary_page_fread(
     if (page_header.type != CARQUET_PAGE_DICTIONARY) {
         CARQUET_SET_ERROR(error, CARQUET_ERROR_INVALID_PAGE, "Expected dictionary page");
         return CARQUET_ERROR_INVALID_PAGE;
+    }
+
+    status = check_page_header_sizes(&page_header, error);
+    if (status != CARQUET_OK) {
+        return status;
     }
 
     /* Seek past header and read page data */
@@ -910,6 +945,11 @@ static carquet_status_t load_next_page_mmap(
     if (page_header.type != CARQUET_PAGE_DATA && page_header.type != CARQUET_PAGE_DATA_V2) {
         CARQUET_SET_ERROR(error, CARQUET_ERROR_INVALID_PAGE, "Expected data page");
         return CARQUET_ERROR_INVALID_PAGE;
+    }
+
+    status = check_page_header_sizes(&page_header, error);
+    if (status != CARQUET_OK) {
+        return status;
     }
 
     status = mmap_page_payload_check(file_reader, page_offset, header_size,
@@ -1137,6 +1177,11 @@ static carquet_status_t load_next_page_fread(
     if (page_header.type != CARQUET_PAGE_DATA && page_header.type != CARQUET_PAGE_DATA_V2) {
         CARQUET_SET_ERROR(error, CARQUET_ERROR_INVALID_PAGE, "Expected data page");
         return CARQUET_ERROR_INVALID_PAGE;
+    }
+
+    status = check_page_header_sizes(&page_header, error);
+    if (status != CARQUET_OK) {
+        return status;
     }
 
     /* Seek past header and read page data */
